@@ -18,6 +18,36 @@ def gen_programs(run, n, max_stmts, max_depth, gate_subword):
             feats[k] = feats.get(k, 0) + v
     return progs, feats
 
+def load_corpus(pid="C01"):
+    """minimised former failures (ASTs as JSON), run first on every run; never written at run time"""
+    d = os.path.join(common.VERIF, "corpus", pid)
+    out = []
+    if os.path.isdir(d):
+        for fn in sorted(os.listdir(d)):
+            if fn.endswith(".json"):
+                out.append(json.load(open(os.path.join(d, fn)))["prog"])
+    return out
+
+_shrink_n = [0]
+def failure_class(p, work, target="native"):
+    """classify one program against the reference: None = agrees (or outside the defined fragment)"""
+    _shrink_n[0] += 1
+    r = compile_run_all([p], work, target, prefix="s%d_" % _shrink_n[0])[0]
+    if r["panic"]: return "crash:" + (known_crash_key(r["panic"]) or "other")
+    if not r["accepted"]: return "rejected"
+    if r.get("rc") != 0: return "exit"
+    obs = core.parse_output(r["out"]) if r.get("out") is not None else None
+    mv = model_check("c01s%d" % _shrink_n[0], [p], [obs]).get(0)
+    if mv in ("undef", "fuel", "model-rejects", "stuck"): return None
+    return "diff" if (mv == "diff" or obs is None) else None
+
+def shrink_failure(p, work, cls, max_tests=40, target="native"):
+    try:
+        q = core.shrink(p, lambda c: failure_class(c, work, target) == cls, max_tests=max_tests)
+        return core.to_ferret(q)
+    except Exception as e:
+        return "(shrinking failed: %r)" % (e,)
+
 def compile_run_all(progs, work, target="native", prefix="p"):
     """Compile every program with the real CLI (one process per program: the vendored QBE keeps global state between runs,
     so code generation is never driven in-process), then run each executable. Returns list of dict."""
@@ -135,7 +165,15 @@ def main(run):
     run.extra["isel_tables"] = isel.gen_tables()
     ok = run.proof("Props/C01.v", extra_targets=["Core/Typing.vo"])
     progs, feats = gen_programs(run, n, 30 if quick else 60, 3 if quick else 5, False)
+    corpus = load_corpus()
+    run.extra["corpus_programs"] = len(corpus)
+    progs = corpus + progs
     results = compile_run_all(progs, work)
+    nshrunk = [0]
+    def shrunk(p, cls):
+        if nshrunk[0] >= 2: return None
+        nshrunk[0] += 1
+        return shrink_failure(p, work, cls)
     observed = []
     for i, (p, r) in enumerate(zip(progs, results)):
         src = core.to_ferret(p)
@@ -157,16 +195,20 @@ def main(run):
             raise RuntimeError("generator/model inconsistency (%s) on program:\n%s" % (mv, src))
         key = "prog:" + hashlib.sha256(src.encode()).hexdigest()[:16]
         if r["panic"]:
-            run.violation(known_crash_key(r["panic"]) or key, "compiler crashed on a reference-accepted core program",
-                          {"program": src, "panic": r["panic"][:2000]})
+            kk = known_crash_key(r["panic"])
+            run.violation(kk or key, "compiler crashed on a reference-accepted core program",
+                          {"program": src, "panic": r["panic"][:2000], "shrunk_program": None if kk else shrunk(p, "crash:other")})
         elif not r["accepted"]:
-            run.violation(key, "reference-accepted core program rejected by the compiler", {"program": src, "diagnostics": r["diag"][:2000]})
+            run.violation(key, "reference-accepted core program rejected by the compiler",
+                          {"program": src, "diagnostics": r["diag"][:2000], "shrunk_program": shrunk(p, "rejected")})
         elif r.get("rc") != 0:
             run.violation(key, "executable of a terminating, panic-free program exited with status %s" % r.get("rc"),
-                          {"program": src, "stdout": r.get("out"), "stderr": r.get("err"), "reference": model_output("c01_replay", p)})
+                          {"program": src, "stdout": r.get("out"), "stderr": r.get("err"), "reference": model_output("c01_replay", p),
+                           "shrunk_program": shrunk(p, "exit")})
         elif mv == "diff" or observed[i] is None:
             run.violation(key, "executable output differs from the reference semantics",
-                          {"program": src, "stdout": r.get("out"), "reference": model_output("c01_replay", p)})
+                          {"program": src, "stdout": r.get("out"), "reference": model_output("c01_replay", p),
+                           "shrunk_program": shrunk(p, "diff")})
     run.extra["skipped_undefined_or_fuel"] = nskip
     if not ok:
         where, log = run.proof_failure
